@@ -417,6 +417,7 @@ pub fn c05_frontends(ctx: &mut Ctx, acc: &mut Acc) {
         ("oversell after unsplit", false, "2023-04-22 BUY X 10 @ 10\n2023-05-01 UNSPLIT X RATIO 2\n2023-06-01 SELL X 6 @ 20\n", "2023-06-01"),
         ("second security uncovered", false, "2023-04-22 BUY A 10 @ 10\n2023-06-01 SELL A 4 @ 20\n2023-06-02 SELL B 1 @ 5\n", "2023-06-02"),
         ("uncovered in a later year", false, "2023-04-22 BUY X 10 @ 10\n2023-06-01 SELL X 4 @ 20\n2025-06-01 SELL X 7 @ 20\n", "2025-06-01"),
+        ("uncovered three months after a covered sale", false, "2023-01-10 BUY X 100 @ 10\n2023-03-02 SELL X 40 @ 12\n2023-09-01 SELL X 60 @ 13\n2023-09-01 SELL X 60 @ 13\n", "2023-09-01"),
     ];
     let ctxr: &Ctx = ctx;
     let part = ledgers
@@ -508,11 +509,33 @@ pub fn c05_frontends(ctx: &mut Ctx, acc: &mut Acc) {
                     push(&mut acc, "uncovered-ledger-accepted", "MCP calculate_report with year=2023 returns a report for an uncovered ledger".into(), json!({"profile": "front-ends"}));
                 }
             }
+            // explain_matching is a front-end too: asked about any sale line of an uncovered ledger it must not answer
+            // with a breakdown (a partial report); on a covered ledger it must explain every sale
+            let sale_lines: Vec<(String, String)> = text.lines().filter_map(|l| { let t: Vec<&str> = l.split_whitespace().collect(); if t.len() > 2 && t[1] == "SELL" { Some((t[0].to_string(), t[2].to_string())) } else { None } }).collect();
+            let mut ids = vec![];
+            for (k, (d, tk)) in sale_lines.iter().enumerate() {
+                let id = json!(10 + k);
+                m.send_raw(&tool_call(&id, "explain_matching", json!({"transactions": text, "disposal_date": d, "ticker": tk})));
+                ids.push(id.to_string());
+            }
+            acc.add("frontend:mcp-explain-requests", ids.len() as u64);
+            if !ids.is_empty() {
+                if !m.wait_for(&ids, Duration::from_secs(15)) {
+                    push(&mut acc, "mcp-no-response", "explain_matching not answered".into(), json!({"profile": "front-ends"}));
+                } else {
+                    for (id, (d, tk)) in ids.iter().zip(sale_lines.iter()) {
+                        let r = tool_text(&m.got[id][0]);
+                        if *covered != r.is_ok() {
+                            push(&mut acc, if *covered { "covered-ledger-refused" } else { "partial-report-emitted" }, format!("MCP explain_matching for {tk} on {d} returns {}", if r.is_ok() { "a matching breakdown" } else { "an error" }), json!({"profile": "front-ends"}));
+                        }
+                    }
+                }
+            }
             let _ = m.finish();
             acc
         })
         .reduce(Acc::new, Acc::merge);
     let merged = Acc::merge(std::mem::take(acc), part);
     *acc = merged;
-    ctx.alphabets.push(json!({"name": "front-ends", "description": "10 ledgers (covered and uncovered in different ways) x cgt-tool report {plain,json,pdf} x {stdout, --output} and MCP calculate_report with and without year", "ledgers": ledgers.iter().map(|l| l.0).collect::<Vec<_>>()}));
+    ctx.alphabets.push(json!({"name": "front-ends", "description": "11 ledgers (covered and uncovered in different ways) x cgt-tool report {plain,json,pdf} x {stdout, --output} and MCP calculate_report with and without year and explain_matching for every sale line; each ledger also cut into two files after every line", "ledgers": ledgers.iter().map(|l| l.0).collect::<Vec<_>>()}));
 }
